@@ -21,7 +21,7 @@ func init() {
 		},
 		NumCases: func(tier string) int {
 			if tier == "thorough" {
-				return c01EnumCases("thorough") + 60000
+				return c01EnumCases("thorough") + 250000
 			}
 			return c01EnumCases("quick") + 4000
 		},
